@@ -4,6 +4,7 @@ import (
 	"bufio"
 	"bytes"
 	"crypto"
+	"encoding/hex"
 	"fmt"
 	"sort"
 	"strings"
@@ -454,6 +455,60 @@ func TestC25(t *testing.T) {
 	}
 	c.Exhaustive(fmt.Sprintf("every cipher x MAC mode (%d) x every payload length 1..%d, sequence numbers wrapping inside the stream", len(modes), maxN), len(modes)*maxN)
 
+	// ---- AES-GCM invocation counter: byte carries and the 2^64 wrap (RFC 5647 7.1) ----
+	// (key material from a KEX hash never puts the counter near a carry, so the
+	// cipher is built from explicit keys here)
+	nIV := 0
+	for mi, m := range modes {
+		cs, _ := rw.CipherByName(m.Cipher)
+		if cs.Kind != "gcm" || !ev.Mine(mi) {
+			continue
+		}
+		d := newDRBG(uint64(4000 + mi))
+		for ci, ctr := range []string{"ffffffffffffffff", "fffffffffffffffe", "00ffffffffffffff", "0000ffffffffffff", "00000000ffffffff", "000000000000ffff", "00000000000000ff", "7fffffffffffffff", "0123456789abcdef"} {
+			key := d.bytes(m.CI.KeySize)
+			iv := append(d.bytes(4), unhexC25(ctr)...)
+			g, err1 := ssh.VerifWireNewPacketCipherKeys(m.Cipher, "", cp(key), cp(iv), nil)
+			g2, err2 := ssh.VerifWireNewPacketCipherKeys(m.Cipher, "", cp(key), cp(iv), nil)
+			dec, err3 := rw.NewState(m.Cipher, "", rw.Keys{Key: cp(key), IV: cp(iv)})
+			enc, _ := rw.NewState(m.Cipher, "", rw.Keys{Key: cp(key), IV: cp(iv)})
+			if err1 != nil || err2 != nil || err3 != nil {
+				c.Inconclusive(fmt.Sprintf("gcm setup: %v %v %v", err1, err2, err3))
+				t.Fatal("gcm setup")
+			}
+			for i := 0; i < 4; i++ {
+				payload := d.bytes(5 + 7*i)
+				var buf bytes.Buffer
+				werr := guard(func() error { return g.WritePacket(uint32(i), &buf, d, cp(payload)) })
+				var msg string
+				if werr != nil {
+					msg = fmt.Sprintf("writer failed: %v", werr)
+				} else if p, derr := dec.Decode(uint32(i), buf.Bytes()); derr != nil {
+					msg = fmt.Sprintf("packet %d does not decode under RFC 5647 (nonce = fixed field || 64-bit counter+%d): %v", i, i, derr)
+				} else if !bytes.Equal(p.Payload, payload) {
+					msg = fmt.Sprintf("packet %d decodes to %x, written %x", i, p.Payload, payload)
+				} else {
+					var got []byte
+					rerr := guard(func() (e error) {
+						got, e = g2.ReadPacket(uint32(i), bytes.NewReader(enc.Encode(uint32(i), payload, d.bytes(enc.MinPad(len(payload))))))
+						return
+					})
+					if rerr != nil || !bytes.Equal(got, payload) {
+						msg = fmt.Sprintf("reader fails on packet %d of the independent encoder: %v", i, rerr)
+					}
+				}
+				if msg != "" {
+					msg = fmt.Sprintf("%v with initial invocation counter %s: %s", m, ctr, msg)
+					c.Violation(msg, "")
+					t.Fatalf("VF-VIOLATION: property=C25 %s", msg)
+				}
+			}
+			nIV++
+			c.Case(true, fmt.Sprintf("gcm-counter|%v|%d", m, ci), "table:gcm-invocation-counter")
+		}
+	}
+	c.Exhaustive("AES-GCM modes x initial invocation counters at byte carries and the 2^64 wrap, 4 packets each", nIV)
+
 	// ---- the maxPacket boundary (finding F3) -------------------------------------
 	// For every mode, locate by bisection the smallest payload size in
 	// [maxPacket-64, maxPacket] that the writer accepts but the package's own
@@ -548,4 +603,12 @@ func TestC25(t *testing.T) {
 			c.Sample(map[string]any{"F3_first_refused_payload_size": b, "below_maxPacket": c25Max - b, "modes": boundaries[b]})
 		}
 	}
+}
+
+func unhexC25(s string) []byte {
+	b, err := hex.DecodeString(s)
+	if err != nil {
+		panic(err)
+	}
+	return b
 }
